@@ -43,7 +43,7 @@ func buildOverlay(harnessDirs []string) (map[string][]byte, []string, map[string
 		v2r[virtual] = real
 		return nil
 	}
-	for _, sub := range []string{"api", "models", "shape"} {
+	for _, sub := range []string{"api", "models", "shape", "kit"} {
 		files, _ := filepath.Glob(filepath.Join(verifDir, "api/zzverif", sub, "*.go"))
 		for _, f := range files {
 			if err := add(filepath.Join(repoDir, "internal/zzverif", sub, filepath.Base(f)), f); err != nil {
@@ -99,7 +99,7 @@ func loadProgram(harnessDirs []string) (*sx.Program, *sx.LoadStats, map[string]s
 		}
 		symOv[k] = v
 	}
-	patterns := []string{"./internal/zzverif/api", "./internal/zzverif/models", "./internal/zzverif/shape"}
+	patterns := []string{"./internal/zzverif/api", "./internal/zzverif/models", "./internal/zzverif/shape", "./internal/zzverif/kit"}
 	for _, p := range pkgs {
 		if p == "" {
 			patterns = append(patterns, ".")
